@@ -364,6 +364,12 @@ func (x *Exec) structField(v Term, t types.Type, i int) Term {
 	}
 	s := t.Underlying().(*types.Struct)
 	f := s.Field(i)
+	// projection of a constructor application: pick the argument
+	if strings.HasPrefix(v.S, "(mk-"+name+" ") {
+		if parts := splitSexp(v.S); len(parts) == s.NumFields()+1 {
+			return Term{parts[i+1], x.sortOf(f.Type())}
+		}
+	}
 	return App(x.fieldSel(name, f.Name()), x.sortOf(f.Type()), v)
 }
 
@@ -519,6 +525,20 @@ func (x *Exec) implPred(it types.Type) string {
 // Heap
 
 func (x *Exec) heapInit(name, sort string, epoch int) Term {
+	// an array that a whole-heap havoc preserved (its name has a kept prefix)
+	// is the same array as before that havoc
+	for epoch > 0 {
+		kept := false
+		for _, p := range x.epochKeep[epoch] {
+			if strings.HasPrefix(name, p) {
+				kept = true
+			}
+		}
+		if !kept {
+			break
+		}
+		epoch = x.epochPrev[epoch]
+	}
 	return x.decls.Const(fmt.Sprintf("%s@%d", name, epoch), sort)
 }
 
@@ -710,10 +730,19 @@ func (x *Exec) freshValue(st *State, hint string, t types.Type) Value {
 
 func (x *Exec) mapArrs(st *State, h map[string]Term, epoch int, mt *types.Map) (dom, val, card Term, ks, vs string) {
 	ks, vs = x.sortOf(mt.Key()), x.sortOf(mt.Elem())
-	dom = x.heapGetIn(h, epoch, "MD$"+ks, ArraySort("Ref", ArraySort(ks, "Bool")))
-	val = x.heapGetIn(h, epoch, "MV$"+ks+"$"+vs, ArraySort("Ref", ArraySort(ks, vs)))
-	card = x.heapGetIn(h, epoch, "MC", ArraySort("Ref", "Int"))
+	dn, vn, cn := x.mapNames(mt)
+	dom = x.heapGetIn(h, epoch, dn, ArraySort("Ref", ArraySort(ks, "Bool")))
+	val = x.heapGetIn(h, epoch, vn, ArraySort("Ref", ArraySort(ks, vs)))
+	card = x.heapGetIn(h, epoch, cn, ArraySort("Ref", "Int"))
 	return
+}
+
+// mapNames: the heap arrays (domain, values, cardinality) holding all maps of
+// one Go map type. A map object has exactly one (underlying) type, so maps of
+// different types never alias and live in different arrays.
+func (x *Exec) mapNames(mt *types.Map) (dn, vn, cn string) {
+	tag := x.typeName(mt)
+	return "MD$" + tag, "MV$" + tag, "MC$" + tag
 }
 
 func (x *Exec) mapHas(st *State, h map[string]Term, epoch int, m Term, mt *types.Map, k Term) Term {
